@@ -499,7 +499,11 @@ class CombinedCategoricalDissimilarity(AbstractDissimilarity):
         if cat_dissim is None:
             cat_dissim = AbsoluteCategoricalDissimilarity()
 
-        cat_dissim.delta_empty = delta_empty
+        # the combined dissimilarity has one delta_empty: both components use it,
+        # in d() and in their compiled kernels (which captured their own value)
+        for component in (pos_dissim, cat_dissim):
+            component.delta_empty = np.float32(delta_empty)
+            component.d_mat = component.compile_d_mat()
         self.positional_dissim: AbstractDissimilarity = pos_dissim
         self.categorical_dissim: CategoricalDissimilarity = cat_dissim
         self.alpha = alpha
